@@ -208,6 +208,9 @@ class SymBool:
     def __invert__(self):
         return SymBool(z3.Not(self.e))
 
+    def __abs__(self):
+        return self
+
     def __repr__(self):
         return 'SymBool(%s)' % self.e
 
